@@ -332,6 +332,36 @@ fn run<M: SubstMethod<Ar, ()> + 'static>(start: &T, rules_idx: &[usize], pl_iter
                 }
             }
         }
+        // the SAME rule objects on a second e-graph (a Rewrite is a value the user may keep and apply anywhere): a renamed
+        // copy of the start term is inserted first, so that the classes are numbered differently there
+        if presentation == 0 && fails.is_empty() && rules_idx.len() <= 2 {
+            let mut eg2 = EGraph::<Ar>::with_subst_method::<M>(());
+            let r = catch(|| {
+                let copy = start.rename_all(&|n| n + 50);
+                eg2.add_expr(ar_recexpr(&copy));
+                eg2.add_expr(ar_recexpr(start))
+            });
+            if let Ok(root2) = r {
+                for it in 1..=2 {
+                    match catch(|| apply_rewrites(&mut eg2, &rules)) {
+                        Err(site) => {
+                            fails.push(("panic".into(), format!("apply_rewrites panicked when the same rule objects were applied to a second e-graph: {site}"), format!("iteration {it}, rules {names:?}, start {}", start.to_sexp())));
+                            break;
+                        }
+                        Ok(changed) => {
+                            transitions += 1;
+                            if eg2.total_number_of_nodes() > budget {
+                                break;
+                            }
+                            check_against_model(&eg2, &root2, start, primes, &format!("after iteration {it} of the same rule objects on a second e-graph"), &mut fails, &mut evals);
+                            if !changed || !fails.is_empty() {
+                                break;
+                            }
+                        }
+                    }
+                }
+            }
+        }
     }
     // drive through a Runner (2 iterations)
     if fails.is_empty() {
@@ -376,7 +406,7 @@ impl Prop for RewriteProp {
         vec!["class_whose_node_has_redundant_slot", "cyclic_class", "symmetric_class", "rewrite_added_nodes", "rule_moving_term_under_binder_fired", "substitution_form_fired", "conditional_rule_fired", "start_term_inserted_on_top_of_a_class_that_had_lost_a_slot"]
     }
     fn rule(&self) -> String {
-        "Start terms: all terms of size <=3 (thorough 4) of the arithmetic language (numbers 0,1,2; two free slots; sum and let binders up to depth 2) plus eight binder-heavy terms. Rule sets: every subset of <=2 rules (triples too for the hand-made terms; thorough: triples for every term) of a 25-rule pool, the full pool, and let-subst pairs; subsets of <=1 rule are also run in a second presentation (a renamed copy of the start term inserted first, the start term's names spelled like the library's next fresh slots); every rule set in a third presentation when the start term has a sub-term whose model value ignores one of its slots (the proper sub-terms inserted bottom-up, such a sub-term united with a renamed copy before its parents exist: redundancy first, parents afterwards); SynExprSubst and ExtractionSubst; driven by apply_rewrites for up to 3 (4) iterations within a node budget and by Runner::run. Every rule is first self-tested to be an identity of the model for all admissible instantiations by small terms in F_5 and F_7. After insertion and after EVERY iteration: class value tables are built by least fixpoint and EVERY e-node of EVERY class is evaluated under ALL environments of its slots in F_5 (thorough also F_7; `sum $x b` = b[1]+b[2]+b[3], NOT the sum over the whole field, which would annihilate every summand of degree < p-1) including slots the class does not have, and the root class is compared with the directly evaluated start term. Non-trivial = executions in which rewriting added nodes is a coverage goal; states = progress fingerprints after each iteration.".into()
+        "Start terms: all terms of size <=3 (thorough 4) of the arithmetic language (numbers 0,1,2; two free slots; sum and let binders up to depth 2) plus eight binder-heavy terms. Rule sets: every subset of <=2 rules (triples too for the hand-made terms; thorough: triples for every term) of a 25-rule pool, the full pool, and let-subst pairs; subsets of <=1 rule are also run in a second presentation (a renamed copy of the start term inserted first, the start term's names spelled like the library's next fresh slots); every rule set in a third presentation when the start term has a sub-term whose model value ignores one of its slots (the proper sub-terms inserted bottom-up, such a sub-term united with a renamed copy before its parents exist: redundancy first, parents afterwards); for rule sets of at most two rules the same Rewrite objects are afterwards applied to a second e-graph in which a renamed copy of the start term was inserted first; SynExprSubst and ExtractionSubst; driven by apply_rewrites for up to 3 (4) iterations within a node budget and by Runner::run. Every rule is first self-tested to be an identity of the model for all admissible instantiations by small terms in F_5 and F_7. After insertion and after EVERY iteration: class value tables are built by least fixpoint and EVERY e-node of EVERY class is evaluated under ALL environments of its slots in F_5 (thorough also F_7; `sum $x b` = b[1]+b[2]+b[3], NOT the sum over the whole field, which would annihilate every summand of degree < p-1) including slots the class does not have, and the root class is compared with the directly evaluated start term. Non-trivial = executions in which rewriting added nodes is a coverage goal; states = progress fingerprints after each iteration.".into()
     }
     fn assumptions(&self) -> Vec<String> {
         vec!["environments are enumerated completely for the prime fields p=5 (and 7), not drawn at random; an unsound merge that is an identity in both fields is invisible".into(), "e-graphs above the node budget are not evaluated".into()]
